@@ -57,3 +57,20 @@ pub fn mismatch(what: &str, expected: Value, observed: Value) -> Value {
 pub fn seed_from_env() -> u64 {
     std::env::var("VERIF_SEED").ok().and_then(|s| s.parse().ok()).unwrap_or(1)
 }
+
+/// Appends one event to this process's trace file `$VERIF_WORK/events-<family>-<pid>.ndjson`; the runner concatenates
+/// the files of all workers and hands them to the TLC trace specification.
+pub fn emit_event(family: &str, ev: &Value) {
+    use std::io::Write;
+    use std::sync::Mutex;
+    static FILE: Mutex<Option<std::fs::File>> = Mutex::new(None);
+    let mut guard = FILE.lock().unwrap();
+    if guard.is_none() {
+        let dir = std::env::var("VERIF_WORK").unwrap_or_else(|_| ".".into());
+        let path = format!("{dir}/events-{family}-{}.ndjson", std::process::id());
+        *guard = std::fs::OpenOptions::new().create(true).append(true).open(path).ok();
+    }
+    if let Some(f) = guard.as_mut() {
+        let _ = writeln!(f, "{ev}");
+    }
+}
